@@ -549,6 +549,20 @@ func (m *Machine) Draw(t *rapid.T, g *GenOpts) Action {
 	case "jail", "unjail":
 		a.Dt = rapid.IntRange(1, maxDt).Draw(t, "dt")
 		a.Key = rapid.IntRange(0, len(m.Keys)-1).Draw(t, "key")
+	case "msgUnjail":
+		a.Op = op()
+		// prefer an operator that is jailed
+		var jailed []int
+		for i, o := range m.W.Operators {
+			if found, key, err := m.C.App.OperatorKeeper.GetOperatorConsKeyForChainID(m.C.Ctx(), o.Acc(), m.chainIDNoRev()); err == nil && found {
+				if m.C.App.OperatorKeeper.IsOperatorJailedForChainID(m.C.Ctx(), key.ToConsAddr(), m.chainIDNoRev()) {
+					jailed = append(jailed, i)
+				}
+			}
+		}
+		if len(jailed) > 0 && pct(t, 80, "jailed-op?") {
+			a.Op = jailed[uniform(t, len(jailed), "jailed")]
+		}
 	case "optIn", "setKey":
 		a.Op = op()
 		a.Key = rapid.IntRange(0, len(m.Keys)-1).Draw(t, "key")
